@@ -487,6 +487,32 @@ func ruleRenderPure(r *Run) {
 			r.Check("render-pure", shortName(fn)+":"+par.Name(), fn.Pos(), len(sites) == 0, detail)
 		}
 	}
+	// every other exported entry point that is handed the caller's data and renders (the
+	// TemplateRenderer wrappers, convenience variants added later): the caller's data is only read.
+	// TemplateData's own methods (its setters) are of course exempt — the receiver is theirs to change.
+	known := map[string]bool{"(*TemplateEngine).RenderToDocument": true, "(*TemplateEngine).RenderTemplateToDocument": true, "(*TemplateEngine).renderTemplate": true}
+	for _, fn := range p.exportedAPI(pkgDoc) {
+		if fn.Signature.Recv() == nil || known[strings.TrimPrefix(shortName(fn), "document.")] {
+			continue
+		}
+		if !typeIs(fn.Signature.Recv().Type(), pkgDoc, "TemplateEngine") && !typeIs(fn.Signature.Recv().Type(), pkgDoc, "TemplateRenderer") {
+			continue
+		}
+		if !strings.Contains(fn.Name(), "Render") {
+			continue
+		}
+		for pi, par := range fn.Params {
+			if pi == 0 || !typeIs(par.Type(), pkgDoc, "TemplateData") {
+				continue
+			}
+			sites := ms.Params(fn)[pi]
+			detail := "no store through this parameter in the function or its callees"
+			if len(sites) > 0 {
+				detail = fmt.Sprintf("rendering writes through its %s parameter at %s (in %s): the caller's data changes under its hands, later renderings depend on which ran before, and concurrent renderings of shared data race", par.Name(), p.pos(sites[0].Instr.Pos()), shortName(sites[0].Fn))
+			}
+			r.Check("render-pure", shortName(fn)+":"+par.Name(), fn.Pos(), len(sites) == 0, detail)
+		}
+	}
 	// the base document is only read: in the render entry points every write into Document memory
 	// must target the clone (a fresh call result) — never memory reached from template.BaseDoc
 	for _, name := range []string{"(*TemplateEngine).RenderTemplateToDocument", "(*TemplateEngine).RenderToDocument"} {
